@@ -14,13 +14,136 @@ variable {α : Type} [DecidableEq α] (E : Elem α)
 /-- the values that are stored out of `done` -/
 def keepA (o : Opts) (done : List α) : List α := if o.unique then dedupInto [] done else done
 
-def valI (o : Opts) (t : List Char) : Option α := E.conv (applyFmt o.fmt t)
-def AcceptsI (o : Opts) (t : List Char) : Prop := runChecks o.checks t = none ∧ (valI E o t).isSome = true
-def valsI (o : Opts) (ts : List (List Char)) : List α := ts.filterMap (valI E o)
+/-- the value a token stands for when it is about to be stored in slot `p`: general format first, then the
+    formatters of slot `p` -/
+def valI (o : Opts) (p : Nat) (t : List Char) : Option α := E.conv (applyPos o.fmtPos p (applyFmt o.fmt t))
+/-- passes the checks (on the text as given) and converts after formatting for slot `p` -/
+def AcceptsI (o : Opts) (p : Nat) (t : List Char) : Prop :=
+  runChecks o.checks t = none ∧ (valI E o p t).isSome = true
+/-- the values of the tokens when the values `done` came before them: every token is formatted for the slot it
+    goes to = the number of values kept so far (a dropped duplicate does not advance the slot) -/
+def valsI (o : Opts) (done : List α) : List (List Char) → List α
+  | [] => []
+  | t :: ts => match valI E o (keepA o done).length t with
+    | none => valsI o done ts
+    | some v => v :: valsI o (done ++ [v]) ts
+/-- every token is acceptable at the slot it arrives at -/
+def AccI (o : Opts) (done : List α) : List (List Char) → Prop
+  | [] => True
+  | t :: ts => AcceptsI E o (keepA o done).length t ∧
+      AccI o (done ++ (valI E o (keepA o done).length t).toList) ts
+
+instance (o : Opts) (p : Nat) (t : List Char) : Decidable (AcceptsI E o p t) := by
+  unfold AcceptsI; exact inferInstance
+
+instance AccI.dec (o : Opts) : ∀ (done : List α) (ts : List (List Char)), Decidable (AccI E o done ts)
+  | _, [] => isTrue trivial
+  | done, t :: ts =>
+    have := AccI.dec o (done ++ (valI E o (keepA o done).length t).toList) ts
+    by unfold AccI; exact inferInstance
 
 def ArrInv (o : Opts) (init : List α) (s : ArrState α) (done : List α) : Prop :=
   ∃ X : List α, s.slots = X ++ init.drop s.idx ∧ X.length = s.idx ∧ s.idx ≤ init.length ∧
     X.Perm (keepA o done) ∧ (o.sort = false → X = keepA o done)
+
+theorem idx_of_inv {o : Opts} {init : List α} {s : ArrState α} {done : List α} (hi : ArrInv o init s done) :
+    s.idx = (keepA o done).length := by
+  obtain ⟨X, _, hlen, _, hperm, _⟩ := hi
+  rw [← hlen, hperm.length_eq]
+
+theorem keepA_of_not_unique (o : Opts) (hu : o.unique = false) (done : List α) : keepA o done = done := by
+  simp [keepA, hu]
+
+theorem keepA_nil (o : Opts) : keepA o ([] : List α) = [] := by
+  unfold keepA; split <;> simp [dedupInto]
+
+/-! unfolding `valsI` / `AccI` -/
+
+@[simp] theorem valsI_nil (o : Opts) (done : List α) : valsI E o done [] = [] := rfl
+
+theorem valsI_cons_some (o : Opts) (done : List α) (t : List Char) (ts : List (List Char)) (v : α)
+    (h : valI E o (keepA o done).length t = some v) :
+    valsI E o done (t :: ts) = v :: valsI E o (done ++ [v]) ts := by
+  rw [valsI, h]
+
+theorem valsI_cons_none (o : Opts) (done : List α) (t : List Char) (ts : List (List Char))
+    (h : valI E o (keepA o done).length t = none) :
+    valsI E o done (t :: ts) = valsI E o done ts := by
+  rw [valsI, h]
+
+@[simp] theorem accI_nil (o : Opts) (done : List α) : AccI E o done [] := trivial
+
+theorem accI_cons (o : Opts) (done : List α) (t : List Char) (ts : List (List Char)) :
+    AccI E o done (t :: ts) ↔ AcceptsI E o (keepA o done).length t ∧
+      AccI E o (done ++ (valI E o (keepA o done).length t).toList) ts := Iff.rfl
+
+/-- the form the proofs use: the token passes the checks, has a value `v` at its slot, and the rest is acceptable
+    after `v` -/
+theorem accI_cons_iff (o : Opts) (done : List α) (t : List Char) (ts : List (List Char)) :
+    AccI E o done (t :: ts) ↔ runChecks o.checks t = none ∧
+      ∃ v, valI E o (keepA o done).length t = some v ∧ AccI E o (done ++ [v]) ts := by
+  rw [accI_cons]
+  unfold AcceptsI
+  constructor
+  · rintro ⟨⟨hchk, hconv⟩, hrest⟩
+    obtain ⟨v, hv⟩ := Option.isSome_iff_exists.mp hconv
+    rw [hv] at hrest
+    exact ⟨hchk, v, hv, hrest⟩
+  · rintro ⟨hchk, v, hv, hrest⟩
+    rw [hv]
+    exact ⟨⟨hchk, rfl⟩, hrest⟩
+
+theorem valsI_append (o : Opts) : ∀ (a b : List (List Char)) (done : List α),
+    valsI E o done (a ++ b) = valsI E o done a ++ valsI E o (done ++ valsI E o done a) b
+  | [], b, done => by simp
+  | t :: a, b, done => by
+    cases h : valI E o (keepA o done).length t with
+    | none =>
+      rw [List.cons_append, valsI_cons_none E o done t _ h, valsI_cons_none E o done t _ h]
+      exact valsI_append o a b done
+    | some v =>
+      rw [List.cons_append, valsI_cons_some E o done t _ v h, valsI_cons_some E o done t _ v h,
+        valsI_append o a b (done ++ [v])]
+      simp
+
+theorem accI_append (o : Opts) : ∀ (a b : List (List Char)) (done : List α),
+    AccI E o done (a ++ b) ↔ AccI E o done a ∧ AccI E o (done ++ valsI E o done a) b
+  | [], b, done => by simp
+  | t :: a, b, done => by
+    rw [List.cons_append, accI_cons_iff, accI_cons_iff]
+    constructor
+    · rintro ⟨hchk, v, hv, hrest⟩
+      have := (accI_append o a b (done ++ [v])).mp hrest
+      rw [valsI_cons_some E o done t _ v hv]
+      exact ⟨⟨hchk, v, hv, this.1⟩, by simpa using this.2⟩
+    · rintro ⟨⟨hchk, v, hv, ha⟩, hb⟩
+      rw [valsI_cons_some E o done t _ v hv] at hb
+      exact ⟨hchk, v, hv, (accI_append o a b (done ++ [v])).mpr ⟨ha, by simpa using hb⟩⟩
+
+/-- acceptable tokens all yield a value -/
+theorem valsI_length (o : Opts) : ∀ (ts : List (List Char)) (done : List α), AccI E o done ts →
+    (valsI E o done ts).length = ts.length
+  | [], _, _ => rfl
+  | t :: ts, done, h => by
+    obtain ⟨_, v, hv, hrest⟩ := (accI_cons_iff E o done t ts).mp h
+    rw [valsI_cons_some E o done t _ v hv, List.length_cons, List.length_cons, valsI_length o ts _ hrest]
+
+/-- without unique-data nothing is dropped, so the slot of a token is its index: the values are the index-wise
+    map — element `i` is formatted with the formatters of position `done.length + i` -/
+theorem valsI_getElem? (o : Opts) (hu : o.unique = false) : ∀ (ts : List (List Char)) (done : List α),
+    AccI E o done ts → ∀ i, (valsI E o done ts)[i]? = (ts[i]?).bind (valI E o (done.length + i))
+  | [], _, _, i => by simp
+  | t :: ts, done, h, i => by
+    obtain ⟨_, v, hv, hrest⟩ := (accI_cons_iff E o done t ts).mp h
+    rw [valsI_cons_some E o done t _ v hv]
+    rw [keepA_of_not_unique o hu] at hv
+    cases i with
+    | zero => simp [hv]
+    | succ i =>
+      have := valsI_getElem? o hu ts (done ++ [v]) hrest i
+      simp only [List.getElem?_cons_succ, this, List.length_append, List.length_singleton]
+      congr 2
+      omega
 
 theorem keepA_snoc_old (o : Opts) (done : List α) (v : α) (hu : o.unique = true) (hm : v ∈ done) :
     keepA o (done ++ [v]) = keepA o done := by
@@ -44,16 +167,17 @@ theorem mem_keepA (o : Opts) (done : List α) (v : α) (hu : o.unique = true) : 
 /-- one accepted token while there is room -/
 theorem arrStep_ok (o : Opts) (init : List α) (s : ArrState α) (done : List α) (t : List Char) (v : α)
     (hi : ArrInv o init s done) (hroom : s.idx < init.length) (hchk : runChecks o.checks t = none)
-    (hval : valI E o t = some v) (hnd : ¬ (o.unique = true ∧ o.dupErr = true ∧ v ∈ done)) :
+    (hval : valI E o (keepA o done).length t = some v) (hnd : ¬ (o.unique = true ∧ o.dupErr = true ∧ v ∈ done)) :
     ∃ s', arrStep E o false s t = .ok s' ∧ ArrInv o init s' (done ++ [v]) := by
+  have hval' : E.conv (applyPos o.fmtPos s.idx (applyFmt o.fmt t)) = some v := by
+    rw [idx_of_inv hi]; exact hval
   obtain ⟨X, hsl, hlen, hle, hperm, hex⟩ := hi
   have hslen : s.slots.length = init.length := by rw [hsl]; simp; omega
   have htake : s.slots.take s.idx = X := by rw [hsl]; exact List.take_left' hlen
-  unfold valI at hval
   unfold arrStep
   rw [if_neg (by omega), hchk]
   simp only
-  rw [hval]
+  rw [hval']
   simp only [Bool.false_eq_true, if_false, htake]
   by_cases hdup : o.unique = true ∧ v ∈ X
   · -- already there: dropped
@@ -95,20 +219,14 @@ def Fits (o : Opts) (n : Nat) (done vs : List α) : Prop :=
 
 def DupFreeI (o : Opts) (all : List α) : Prop := o.unique = true → o.dupErr = true → all.Nodup
 
-theorem idx_of_inv {o : Opts} {init : List α} {s : ArrState α} {done : List α} (hi : ArrInv o init s done) :
-    s.idx = (keepA o done).length := by
-  obtain ⟨X, _, hlen, _, hperm, _⟩ := hi
-  rw [← hlen, hperm.length_eq]
-
 theorem arrElems_inv (o : Opts) (init : List α) :
     ∀ (ts : List (List Char)) (s : ArrState α) (done : List α), ArrInv o init s done →
-      (∀ t ∈ ts, AcceptsI E o t) → DupFreeI o (done ++ valsI E o ts) → Fits o init.length done (valsI E o ts) →
-      ∃ s', arrElems E o false s ts = (s', none) ∧ ArrInv o init s' (done ++ valsI E o ts)
-  | [], s, done, hi, _, _, _ => ⟨s, rfl, by simpa [valsI] using hi⟩
+      AccI E o done ts → DupFreeI o (done ++ valsI E o done ts) → Fits o init.length done (valsI E o done ts) →
+      ∃ s', arrElems E o false s ts = (s', none) ∧ ArrInv o init s' (done ++ valsI E o done ts)
+  | [], s, done, hi, _, _, _ => ⟨s, rfl, by simpa using hi⟩
   | t :: ts, s, done, hi, hacc, hdf, hfit => by
-    obtain ⟨hchk, hconv⟩ := hacc t List.mem_cons_self
-    obtain ⟨v, hvt⟩ := Option.isSome_iff_exists.mp hconv
-    have hvals : valsI E o (t :: ts) = v :: valsI E o ts := by simp [valsI, hvt]
+    obtain ⟨hchk, v, hvt, hacc'⟩ := (accI_cons_iff E o done t ts).mp hacc
+    have hvals : valsI E o done (t :: ts) = v :: valsI E o (done ++ [v]) ts := valsI_cons_some E o done t ts v hvt
     have hroom : s.idx < init.length := by
       have := hfit 0 (by rw [hvals]; simp)
       rw [idx_of_inv hi]
@@ -119,14 +237,14 @@ theorem arrElems_inv (o : Opts) (init : List α) :
       rw [hvals] at hd
       exact (List.nodup_append.mp hd).2.2 v hm v List.mem_cons_self rfl
     obtain ⟨s1, hs1, hi1⟩ := arrStep_ok E o init s done t v hi hroom hchk hvt hnd
-    have hassoc : done ++ valsI E o (t :: ts) = (done ++ [v]) ++ valsI E o ts := by rw [hvals]; simp
-    have hfit' : Fits o init.length (done ++ [v]) (valsI E o ts) := by
+    have hassoc : done ++ valsI E o done (t :: ts) = (done ++ [v]) ++ valsI E o (done ++ [v]) ts := by
+      rw [hvals]; simp
+    have hfit' : Fits o init.length (done ++ [v]) (valsI E o (done ++ [v]) ts) := by
       intro j hj
       have := hfit (j + 1) (by rw [hvals]; simp; omega)
       rw [hvals] at this
       simpa [List.take_succ_cons, List.append_assoc] using this
-    obtain ⟨s', hs', hi'⟩ := arrElems_inv o init ts s1 (done ++ [v]) hi1
-      (fun t' ht' => hacc t' (List.mem_cons_of_mem _ ht')) (hassoc ▸ hdf) hfit'
+    obtain ⟨s', hs', hi'⟩ := arrElems_inv o init ts s1 (done ++ [v]) hi1 hacc' (hassoc ▸ hdf) hfit'
     refine ⟨s', ?_, hassoc ▸ hi'⟩
     rw [arrElems, hs1]
     exact hs'
@@ -148,10 +266,11 @@ theorem sortPrefix_inv (hl : LawfulLe E.le) (o : Opts) (init : List α) (s : Arr
 
 /-- invariant plus "the filled prefix is ascending when sorting is on and at least one use has been made" -/
 theorem arrAssignP_inv (hl : LawfulLe E.le) (o : Opts) (init : List α) (s : ArrState α) (value : List Char) (done : List α)
-    (hi : ArrInv o init s done) (hacc : ∀ t ∈ tokens o.sep value, AcceptsI E o t)
-    (hdf : DupFreeI o (done ++ valsI E o (tokens o.sep value)))
-    (hfit : Fits o init.length done (valsI E o (tokens o.sep value))) :
-    ∃ s', arrAssignP E o false s value = (s', none) ∧ ArrInv o init s' (done ++ valsI E o (tokens o.sep value)) ∧
+    (hi : ArrInv o init s done) (hacc : AccI E o done (tokens o.sep value))
+    (hdf : DupFreeI o (done ++ valsI E o done (tokens o.sep value)))
+    (hfit : Fits o init.length done (valsI E o done (tokens o.sep value))) :
+    ∃ s', arrAssignP E o false s value = (s', none) ∧
+      ArrInv o init s' (done ++ valsI E o done (tokens o.sep value)) ∧
       (o.sort = true → Sorted E.le (s'.slots.take s'.idx)) := by
   obtain ⟨s1, hs1, hi1⟩ := arrElems_inv E o init _ s done hi hacc hdf hfit
   unfold arrAssignP
@@ -163,53 +282,55 @@ theorem arrAssignP_inv (hl : LawfulLe E.le) (o : Opts) (init : List α) (s : Arr
 
 theorem arrRunP_inv (hl : LawfulLe E.le) (o : Opts) (init : List α) :
     ∀ (uses : List (List Char)) (s : ArrState α) (done : List α), ArrInv o init s done →
-      (∀ t ∈ allTokens o.sep uses, AcceptsI E o t) → DupFreeI o (done ++ valsI E o (allTokens o.sep uses)) →
-      Fits o init.length done (valsI E o (allTokens o.sep uses)) → uses ≠ [] →
-      ∃ s', arrRunP E o false s uses = (s', none) ∧ ArrInv o init s' (done ++ valsI E o (allTokens o.sep uses)) ∧
+      AccI E o done (allTokens o.sep uses) → DupFreeI o (done ++ valsI E o done (allTokens o.sep uses)) →
+      Fits o init.length done (valsI E o done (allTokens o.sep uses)) → uses ≠ [] →
+      ∃ s', arrRunP E o false s uses = (s', none) ∧
+        ArrInv o init s' (done ++ valsI E o done (allTokens o.sep uses)) ∧
         (o.sort = true → Sorted E.le (s'.slots.take s'.idx))
   | [], _, _, _, _, _, _, hne => absurd rfl hne
   | u :: us, s, done, hi, hacc, hdf, hfit, _ => by
     have htok : allTokens o.sep (u :: us) = tokens o.sep u ++ allTokens o.sep us := by simp [allTokens]
-    have hvals : valsI E o (allTokens o.sep (u :: us)) = valsI E o (tokens o.sep u) ++ valsI E o (allTokens o.sep us) := by
-      rw [htok]; simp [valsI, List.filterMap_append]
-    have hdf1 : DupFreeI o (done ++ valsI E o (tokens o.sep u)) := by
+    have hvals : valsI E o done (allTokens o.sep (u :: us)) = valsI E o done (tokens o.sep u) ++
+        valsI E o (done ++ valsI E o done (tokens o.sep u)) (allTokens o.sep us) := by
+      rw [htok, valsI_append]
+    rw [htok, accI_append] at hacc
+    have hdf1 : DupFreeI o (done ++ valsI E o done (tokens o.sep u)) := by
       intro hu he
       have hd := hdf hu he
       rw [hvals, ← List.append_assoc] at hd
       exact (List.nodup_append.mp hd).1
-    have hfit1 : Fits o init.length done (valsI E o (tokens o.sep u)) := by
+    have hfit1 : Fits o init.length done (valsI E o done (tokens o.sep u)) := by
       intro j hj
       have := hfit j (by rw [hvals]; simp; omega)
       rw [hvals, List.take_append_of_le_length (by omega)] at this
       exact this
-    obtain ⟨s1, hs1, hi1, hsort1⟩ := arrAssignP_inv E hl o init s u done hi
-      (fun t ht => hacc t (by rw [htok]; exact List.mem_append_left _ ht)) hdf1 hfit1
+    obtain ⟨s1, hs1, hi1, hsort1⟩ := arrAssignP_inv E hl o init s u done hi hacc.1 hdf1 hfit1
     rw [arrRunP, hs1]
     simp only
     cases us with
     | nil =>
       refine ⟨s1, rfl, ?_, hsort1⟩
       rw [hvals]
-      simpa [allTokens, valsI] using hi1
+      simpa [allTokens] using hi1
     | cons u2 us2 =>
-      have hfit2 : Fits o init.length (done ++ valsI E o (tokens o.sep u)) (valsI E o (allTokens o.sep (u2 :: us2))) := by
+      have hfit2 : Fits o init.length (done ++ valsI E o done (tokens o.sep u))
+          (valsI E o (done ++ valsI E o done (tokens o.sep u)) (allTokens o.sep (u2 :: us2))) := by
         intro j hj
-        have := hfit ((valsI E o (tokens o.sep u)).length + j) (by rw [hvals]; simp; omega)
+        have := hfit ((valsI E o done (tokens o.sep u)).length + j) (by rw [hvals]; simp; omega)
         rw [hvals, List.take_append, List.take_of_length_le (by omega)] at this
         simpa [List.append_assoc] using this
-      obtain ⟨s2, hs2, hi2, hsort2⟩ := arrRunP_inv hl o init (u2 :: us2) s1 (done ++ valsI E o (tokens o.sep u)) hi1
-        (fun t ht => hacc t (by rw [htok]; exact List.mem_append_right _ ht))
-        (by rw [List.append_assoc, ← hvals]; exact hdf) hfit2 (by simp)
+      obtain ⟨s2, hs2, hi2, hsort2⟩ := arrRunP_inv hl o init (u2 :: us2) s1 (done ++ valsI E o done (tokens o.sep u)) hi1
+        hacc.2 (by rw [List.append_assoc, ← hvals]; exact hdf) hfit2 (by simp)
       refine ⟨s2, hs2, ?_, hsort2⟩
       rw [hvals, ← List.append_assoc]
       exact hi2
 
 /-- the refinement for arrays -/
 theorem arrRunP_finalSpec (hl : LawfulLe E.le) (o : Opts) (init : List α) (uses : List (List Char)) (hne : uses ≠ [])
-    (hacc : ∀ t ∈ allTokens o.sep uses, AcceptsI E o t)
-    (hdf : DupFreeI o (valsI E o (allTokens o.sep uses)))
-    (hfit : Fits o init.length [] (valsI E o (allTokens o.sep uses))) :
-    arrRunP E o false ⟨init, 0⟩ uses = (arrFinalSpec E o init (valsI E o (allTokens o.sep uses)), none) := by
+    (hacc : AccI E o [] (allTokens o.sep uses))
+    (hdf : DupFreeI o (valsI E o [] (allTokens o.sep uses)))
+    (hfit : Fits o init.length [] (valsI E o [] (allTokens o.sep uses))) :
+    arrRunP E o false ⟨init, 0⟩ uses = (arrFinalSpec E o init (valsI E o [] (allTokens o.sep uses)), none) := by
   have hi0 : ArrInv o init ⟨init, 0⟩ [] := by
     refine ⟨[], by simp, rfl, by simp, ?_, ?_⟩
     · simp [keepA, dedupInto]
@@ -221,7 +342,7 @@ theorem arrRunP_finalSpec (hl : LawfulLe E.le) (o : Opts) (init : List α) (uses
   simp only [List.nil_append] at hi'
   obtain ⟨X, hsl, hlen, _, hperm, hex⟩ := hi'
   have htake : s'.slots.take s'.idx = X := by rw [hsl]; exact List.take_left' hlen
-  have hidx : s'.idx = (keepA o (valsI E o (allTokens o.sep uses))).length := by rw [← hlen, hperm.length_eq]
+  have hidx : s'.idx = (keepA o (valsI E o [] (allTokens o.sep uses))).length := by rw [← hlen, hperm.length_eq]
   unfold arrFinalSpec
   cases s' with
   | mk slots idx =>
@@ -262,7 +383,7 @@ theorem arrStep_safe (o : Opts) (w : Bool) (s : ArrState α) (t : List Char) (h 
     | some e => simp
     | none =>
       simp only
-      cases hcv : E.conv (applyFmt o.fmt t) with
+      cases hcv : E.conv (applyPos o.fmtPos s.idx (applyFmt o.fmt t)) with
       | none => simp
       | some v =>
         simp only
